@@ -59,8 +59,9 @@ theorem shouldBuild_spec (hR : 0 < R) (cx : Ctx) (hRid : cx.runid = R) (hredo : 
         intro hov hex1
         have hex0 : existsF w t = true := by rw [← existsF_congr t hs.step.same.1]; exact hex1
         have h1' : (getRec w R t).isOverride = true := by rw [getRec_isOverride]; exact hov
-        rcases hinv.d.ov t h1' hex0 with hfr | ⟨o1, o2 | o2⟩
+        rcases hinv.d.ov t h1' hex0 with hfr | o2 | ⟨o1, o2⟩
         · rw [hfl] at hfr; cases hfr
+        · rw [getRec_isGenerated] at o2; exact o2
         · exfalso
           obtain ⟨c, hc⟩ := getRec_fields w R t
           have hwf := WFrec.getRec hinv.d.wf t
@@ -71,7 +72,6 @@ theorem shouldBuild_spec (hR : 0 < R) (cx : Ctx) (hRid : cx.runid = R) (hredo : 
             have := (hwf.2.2.2 hcc).1
             rw [o2] at this; cases this
           | some c' => exact ⟨c', rfl, hwf.1 c' hcc, .inr ⟨o2, .inr (.inl h1')⟩⟩
-        · rw [getRec_isGenerated] at o2; exact o2
       · cases hck : isCheckedR (w.recs t) R with
         | false => rfl
         | true =>
